@@ -443,10 +443,19 @@ type vdrFileCache struct {
 func getArgsToFilesMap(fileArgs map[string]map[Nodable]struct{},
 	outs LazyArgumentMap,
 	debug bool, fqname string) map[string]map[string]struct{} {
+	return getTypedArgsToFilesMap(fileArgs, outs, nil, nil, debug, fqname)
+}
+
+// As getArgsToFilesMap, using the declared types of the output parameters, if
+// given, to find the values an argument refers to.
+func getTypedArgsToFilesMap(fileArgs map[string]map[Nodable]struct{},
+	outs LazyArgumentMap,
+	params *syntax.OutParams, lookup *syntax.TypeLookup,
+	debug bool, fqname string) map[string]map[string]struct{} {
 	argToFiles := make(map[string]map[string]struct{}, len(fileArgs))
 	// Get the set of files each argument refers to.
 	for arg := range fileArgs {
-		for _, name := range getMaybeFileNames(outs.jsonPath(arg)) {
+		for _, name := range getMaybeFileNames(outs.typedPath(arg, params, lookup)) {
 			for _, fullName := range getLogicalFileNames(name) {
 				fileSet := argToFiles[arg]
 				if fileSet == nil {
@@ -582,9 +591,11 @@ func (self *Fork) cacheParamFileMap(outs LazyArgumentMap) {
 	if outs == nil {
 		return
 	}
-	argToFiles := getArgsToFilesMap(
+	argToFiles := getTypedArgsToFilesMap(
 		self.fileArgs,
 		outs,
+		self.OutParams(),
+		self.node.top.types,
 		self.node.top.rt.Config.Debug,
 		self.node.GetFQName())
 	// Remove "file" args which don't actually refer to existing files.
